@@ -24,6 +24,9 @@ DIM = {"D": (2, -1, 0), "density": (-3, 0, 1), "vol": (3, 0, 0), "sfc": (2, 0, 0
        "time": (0, 1, 0)}
 
 
+UKEYS = ["units", "units_system", "units system", "u"]     # documented spellings of the units declaration
+
+
 def kdim(order):
     return (3 * order - 3, -1, 1 - order)
 
@@ -111,14 +114,14 @@ def build_dict(gtype, level, U, default_state=False):
         d = {"label": s["label"], "D": num(s["D"], g["species"][i], DIM["D"], explicit),
              "density": num(s["density"], g["species"][i], DIM["density"], explicit)}
         if level == "species" and g["species"][i] != D:
-            d["units"] = uq.sysdict(g["species"][i])
+            d[UKEYS[i % 4]] = uq.sysdict(g["species"][i])
         sp.append(d)
     rx = []
     for i, r in enumerate(BASE["reactions"]):
         d = {"eq": r["eq"], "k+": num(r["kf"], g["reaction"][i], kdim(r["orders"][0]), explicit),
              "k-": num(r["kr"], g["reaction"][i], kdim(r["orders"][1]), explicit)}
         if level == "reaction" and g["reaction"][i] != D:
-            d["units"] = uq.sysdict(g["reaction"][i])
+            d[UKEYS[(i + 1) % 4]] = uq.sysdict(g["reaction"][i])
         rx.append(d)
     net = {"species": sp, "reactions": rx, "environments": list(BASE["envs"])}
     if "network" in decl:
@@ -133,14 +136,14 @@ def build_dict(gtype, level, U, default_state=False):
         for i, (v, e) in enumerate(b["nodes"]):
             d = {"volume": num(v, g["node"][i], DIM["vol"], explicit), "environment": e}
             if level == "node" and g["node"][i] != D:
-                d["units"] = uq.sysdict(g["node"][i])
+                d[UKEYS[(i + 2) % 4]] = uq.sysdict(g["node"][i])
             nodes.append(d)
         edges = []
         for i, (a, c, s, dd) in enumerate(b["edges"]):
             d = {"nodes": [a, c], "surface": num(s, g["edge"][i], DIM["sfc"], explicit),
                  "distance": num(dd, g["edge"][i], DIM["dst"], explicit)}
             if level == "edge" and g["edge"][i] != D:
-                d["units"] = uq.sysdict(g["edge"][i])
+                d[UKEYS[(i + 3) % 4]] = uq.sysdict(g["edge"][i])
             edges.append(d)
         space = {"type": "graph", "nodes": nodes, "edges": edges}
     if "space" in decl:
